@@ -65,7 +65,16 @@ MUTANTS = [
     ('C03', 'supp/nast.py', r"self\.make_flow\('else', \[cur\]\)", "self.make_flow('else', [cur, body])", 'C03-R1'),
     ('C03', 'supp/scope.py', r"idx = bisect\(self\._names, Location\(loc\)\)", "idx = len(self._names)", 'C03-R2'),
     # ---- C04
-    ('C04', 'supp/scope.py', r"        self\._resolving = True\n        try:\n            result = self\._names = self\.parent\.names\n        finally:\n            self\._resolving = False", "        self._resolving = True\n        result = self._names = self.parent.names\n        self._resolving = False", 'C04-R2'),
+    ('C04', 'supp/scope.py', r"        self\._resolving = True\n        loops\.append\(self\)\n        try:\n            result = self\.parent\.names\n        finally:\n            loops\.pop\(\)\n            self\._resolving = False", "        self._resolving = True\n        loops.append(self)\n        result = self.parent.names\n        loops.pop()\n        self._resolving = False", 'C04-R2'),
+    # the repaired loop memo (666973c): tables computed during a resolution stored as if they were complete
+    ('C04', 'supp/scope.py', r"value = memo\[active\] = func\(self\)", "value = memo[NO_LOOPS] = func(self)", 'C04-R1'),
+    # (LoopFlow's `memo[active] = result` -> `memo[NO_LOOPS] = result` is not a mutant here: the table of an inner back edge only adds
+    #  what the inner body binds to what the loop entry - which every route passes - already provides, so the union is the same)
+    ('C04', 'supp/scope.py', r"        loops\.append\(self\)\n        try:\n            result = self\.parent\.names\n        finally:\n            loops\.pop\(\)\n", "        try:\n            result = self.parent.names\n        finally:\n", 'C04-R1'),
+    ('C04', 'supp/scope.py', r"    @region_table\n    def parent_names", "    @cached_property\n    def parent_names", 'C04-R1'),
+    # the repaired while test (5f7ee5c)
+    ('C01', 'supp/nast.py', r"test_start\.loop\(body\)", "body_start.loop(body)", 'C01-R5'),
+    ('C01', 'supp/nast.py', r"self\.make_flow\('while-else', \[test\]\)", "self.make_flow('while-else', [cur])", 'C01-R5'),
     ('C04', 'supp/evaluator.py', r"names = node\.flow\.names_at\(np\(node\)\)\n            name = names\.get\(node\.id\)", "names = node.flow.names\n            name = names.get(node.id)", 'C04-R3'),
     ('C04', 'supp/scope.py', r"    @property\n    def names\(self\):\n        # type: \(\) -> t\.Mapping\[str, Name \| MultiName\]\n        return MergedDict\(self\.flow\.names, self\._global_names\)", "    @cached_property\n    def names(self):\n        # type: () -> t.Mapping[str, Name | MultiName]\n        return MergedDict(self.flow.names, self._global_names)", 'C04-R1'),
     ('C04', 'supp/evaluator.py', r"        self\.nodes = set\(\)  # type: set\[t\.Hashable\]", "        self.nodes = set()  # type: set[t.Hashable]\n        self.position = None", 'C04-R4'),
